@@ -519,6 +519,10 @@ class Merge(Expr):
                         # for the suffix to be applied
                         project_left.append(col)
 
+            # A column can be requested through both suffixed names; select it once
+            project_left = [col for col in left.columns if col in project_left]
+            project_right = [col for col in right.columns if col in project_right]
+
             if set(project_left) < set(left.columns) or set(project_right) < set(
                 right.columns
             ):
